@@ -7,7 +7,7 @@ META = {
     "rule": "V1 name class per Definition variant (path-sensitive walk of rename's match); "
             "V2 exactly-one-token gate; V3 locality gate on prepare_rename and rename; "
             "V4 sibling agreement of the gate sets; V5 server forwards new_name / maps Err; V6 a package's locality is computed from its own root path (build/packages) only; V7 both dependency tables of gleam.toml are followed. "
-            "An obligation is non-trivial when its verdict needed a path or dominance argument. V3 also: the package whose locality is asked is that of Definition::module(..) of find_def's result, not of the cursor's file.",
+            "An obligation is non-trivial when its verdict needed a path or dominance argument. V3 also: the package whose locality is asked is that of Definition::module(..) of find_def's result, not of the cursor's file. V8 every TextEdit of rename is built under an is_local test of the package of the file the use was found in.",
     "explanation": "Decides the validation/gating clauses of C08 for every input at once by reading "
                    "the MIR of ide::ide::rename::{rename,prepare_rename,find_def} and the LSP handler: "
                    "each Definition variant must reach success only through a comparison of the lexed "
@@ -306,6 +306,7 @@ def run(F, res, tier):
     # ---- V5 server side
     v5(F, res)
     v6(F, res)
+    edits_only_in_local_files(F, res)
 
 
 # gleam.toml tables whose entries `gleam deps download` puts under build/packages (Gleam manifest format)
@@ -396,3 +397,54 @@ def v5(F, res):
                    val == "1" or val == 1, where=cap.loc(s["ln"]), how="prepare_provider = Some(%s)" % val)
     if not found:
         res.anchor_missing("V5", "RenameOptions literal in glas::capabilities::negotiate_capabilities")
+
+
+def edits_only_in_local_files(F, res, rule="V8"):
+    """V8: "no edit ever touches a file of a dependency". The usage search covers the whole package graph (it has to: C06/R5), and
+    a dependency can use a local symbol (a package under build/packages that depends back on the root). So every TextEdit
+    rename builds must sit under a test Package::is_local(..) == true of the package of the *file the edit goes into* -
+    the locality gate on the definition (V3) says nothing about where the uses are."""
+    rn = F.fn(RENAME)
+    fam = [RENAME] + sorted(p_ for p_ in F.fns if p_.startswith(RENAME + "::{closure") and F.fns[p_].blocks)
+    sites = []
+    for q in fam:
+        g = F.fns[q]
+        for b, i, s in g.stmts():
+            rv = s.get("rv") or {}
+            if rv.get("k") == "agg" and rv.get("agg") == "adt" and (rv.get("adt") or "").endswith("TextEdit"):
+                sites.append((q, b, s["ln"]))
+    res.floor("TextEdit construction sites in rename", len(sites), 1)
+
+    def gated(q, b):
+        g = F.fns[q]
+        d = FL.Defs(g)
+        for gt in FL.gates(F, g, [b], d):
+            if (gt.get("callee") or "").endswith("Package::is_local") and gt["allowed"] == [True]:
+                dep = FL.depends(F, g, d, gt["call_t"]["args"][0])
+                # the test on the definition's own module (V3) is another one: this one is about the file a use was found in
+                if "Definition::module" not in dep["calls"]:
+                    return True
+        return False
+    n_ok = 0
+    for q, b, ln in sites:
+        ok = False
+        cur, blk = q, b
+        for _ in range(4):
+            if gated(cur, blk):
+                ok = True
+                break
+            par = F.fns[cur].d.get("direct_parent")
+            if cur == RENAME or par not in F.fns:
+                break
+            nb = None
+            for b2, i2, s2 in F.fns[par].stmts():
+                rv2 = s2.get("rv") or {}
+                if rv2.get("k") == "agg" and rv2.get("closure") == cur:
+                    nb = b2
+            if nb is None:
+                break
+            cur, blk = par, nb
+        n_ok += ok
+        res.ob(rule, "edit-in-local-file/%d" % sites.index((q, b, ln)), "the TextEdit built here goes into a file whose own package was tested to be local",
+               ok, where=rn.loc(ln), how="a Package::is_local(..) == true test on the file's package encloses the construction" if ok else
+               "no locality test of the edited file's package between the usage search and this edit (only the definition's package is tested)")
